@@ -63,6 +63,12 @@ type (
 		// Raw: bypass validation (the spec is bound by reload directly), to
 		// observe the run-time loop on flows that validation rejects.
 		Raw    bool     `json:"raw"`
+		// Gen: which generation handles the request: 0 = the freshly Init-ed
+		// pipeline; 1 = a second generation Inherit-ed from the first with the
+		// SAME *supervisor.Spec object; 2 = Inherit-ed with a re-parsed equal
+		// spec. Inherit closes the previous generation, as the real lifecycle
+		// does. The observables do not depend on it.
+		Gen int `json:"gen"`
 		Script []string `json:"script"` // result of the n-th filter invocation ("" beyond the end)
 	}
 
@@ -87,7 +93,7 @@ type (
 
 	// VfC02GF runs main through a real GlobalFilter built from gfYAML. It
 	// reports whether the GlobalFilter spec was accepted.
-	VfC02GF func(gfYAML string, main *Pipeline, ctx *context.Context) (accepted bool)
+	VfC02GF func(gfYAML string, gen int, main *Pipeline, ctx *context.Context) (accepted bool)
 )
 
 // ---------------------------------------------------------------------------
@@ -301,14 +307,29 @@ func (r *vfC02Req) Close()                                  {}
 // vfC02Build instantiates one pipeline the regular way (supervisor.NewSpec,
 // which validates, then Init) or, for raw cases, binds the flow with reload
 // without validating it.
-func vfC02Build(s *VfC02Spec, name string, raw bool) (p *Pipeline, accepted bool) {
+func vfC02Build(s *VfC02Spec, name string, raw bool, gen int) (p *Pipeline, accepted bool) {
 	if !raw {
-		ss, err := supervisor.NewSpec(vfC02PipelineYAML(s, name, true))
+		yaml := vfC02PipelineYAML(s, name, true)
+		ss, err := supervisor.NewSpec(yaml)
 		if err != nil {
 			return nil, false
 		}
 		p = &Pipeline{}
 		p.Init(ss, nil)
+		switch gen {
+		case 1:
+			p2 := &Pipeline{}
+			p2.Inherit(ss, p, nil) // same spec object; closes p
+			p = p2
+		case 2:
+			ss2, err := supervisor.NewSpec(yaml)
+			if err != nil {
+				panic("verif: re-parsed spec rejected: " + err.Error())
+			}
+			p2 := &Pipeline{}
+			p2.Inherit(ss2, p, nil)
+			p = p2
+		}
 		return p, true
 	}
 	ss, err := supervisor.NewSpec(vfC02PipelineYAML(s, name, false))
@@ -323,6 +344,20 @@ func vfC02Build(s *VfC02Spec, name string, raw bool) (p *Pipeline, accepted bool
 		if p.flow[i].FilterName != BuiltInFilterEnd && p.flow[i].filter == nil {
 			return nil, false
 		}
+	}
+	switch gen {
+	case 1: // what Inherit does, with the same spec object
+		p2 := &Pipeline{superSpec: ss, spec: &sp}
+		p2.reload(p)
+		p.Close()
+		p = p2
+	case 2:
+		sp2 := *(ss.ObjectSpec().(*Spec))
+		sp2.Flow = vfC02FlowNodes(s)
+		p2 := &Pipeline{superSpec: ss, spec: &sp2}
+		p2.reload(p)
+		p.Close()
+		p = p2
 	}
 	return p, true
 }
@@ -393,7 +428,7 @@ func VfC02Run(in *VfC02In, gf VfC02GF) (obs VfC02Obs) {
 		if in.Mode == "gf" && i > 0 {
 			continue // built by the GlobalFilter itself
 		}
-		p, ok := vfC02Build(s, names[i], in.Raw)
+		p, ok := vfC02Build(s, names[i], in.Raw, in.Gen)
 		if !ok {
 			all = false
 			continue
@@ -419,7 +454,7 @@ func VfC02Run(in *VfC02In, gf VfC02GF) (obs VfC02Obs) {
 		if gf == nil {
 			panic("verif: gf mode without a GlobalFilter runner")
 		}
-		if !gf(VfC02GFYAML(in), ps[0], ctx) {
+		if !gf(VfC02GFYAML(in), in.Gen, ps[0], ctx) {
 			obs.NewSpec = false
 			return
 		}
@@ -446,6 +481,7 @@ type (
 		Spec    VfC02Spec           `json:"spec"`
 		Results []string            `json:"results"`
 		Len     int                 `json:"len"`
+		Gen     int                 `json:"gen"` // generation that handles, see VfC02In.Gen
 	}
 
 	// VfC02EnumRunObs is the outcome of one script.
@@ -498,10 +534,10 @@ func VfC02RunEnum(in *VfC02EnumIn) (obs VfC02EnumObs) {
 		}
 	}()
 	vfC02Cur = &vfC02State{}
-	p, accepted := vfC02Build(&in.Spec, "main", false)
+	p, accepted := vfC02Build(&in.Spec, "main", false, in.Gen)
 	obs.NewSpec = accepted
 	if !accepted {
-		p, accepted = vfC02Build(&in.Spec, "main", true)
+		p, accepted = vfC02Build(&in.Spec, "main", true, in.Gen)
 		if !accepted {
 			return
 		}
